@@ -407,6 +407,11 @@ func (r *libRun) check(ki int, mk func() *libScenario) (opened bool) {
 			}
 			return
 		}
+		if f == nil {
+			// "it worked" and nothing to read from
+			rerr = fmt.Errorf("Open returned no error and no file")
+			return
+		}
 		got, rerr = io.ReadAll(f)
 		f.Close()
 	})
@@ -477,6 +482,10 @@ func (r *libRun) applyDisk(ki int, d *diskFault) {
 		}
 	case "delete":
 		r.w.DeleteFile(path)
+	case "dir":
+		// something else than a regular file lies under the entry's name
+		r.w.DeleteFile(path)
+		r.w.MkdirAllRaw(path)
 	}
 }
 
